@@ -374,3 +374,24 @@ Proof.
     - destruct HT as (a & p1 & p2 & _ & _ & _ & _ & _ & Ed & _). rewrite Ed in HD. inversion HD. }
   subst c. split; [reflexivity|]. split; [apply (co_ends _ _ _ _ HC SL)|apply (co_ends _ _ _ _ HC SR)].
 Qed.
+
+(* ------------------------------------------------------------------ no-reuse implies aba-free *)
+Definition InvB (gg : dq_shared * dq_ghost) (ls : locals dq_local) : Prop :=
+  greuse (snd gg) = false -> aba (fst gg) = false /\ exists c pend, Core (fst gg) ls c pend.
+
+Theorem noreuse_implies_aba_free k progs sched :
+  greuse (snd (fst (dq_run_i sched k progs))) = false -> aba (fst (dq_run sched k progs)) = false.
+Proof.
+  intros R. destruct (dq_run_i_erase k progs sched) as [E1 _]. rewrite <- E1. revert R. unfold dq_run_i.
+  assert (H : InvB (fst (run dq_tstep_i sched (dq_init k, ghost0, dq_locals progs)))
+                   (snd (run dq_tstep_i sched (dq_init k, ghost0, dq_locals progs)))).
+  { apply (run_inv _ _ _ dq_tstep_i InvB).
+    - intros o t [g gh] ls H. destruct o. unfold InvB, dq_tstep_i in *. cbn [fst snd] in *.
+      pose proof (core_step t g ls) as CS. pose proof (step_aba_noreuse t g ls) as AB.
+      destruct (dq_tstep tt t g (ls t)) as [g' l'] eqn:E. cbn [fst snd greuse] in *.
+      intros R. apply orb_false_iff in R. destruct R as [R1 R2]. destruct (H R1) as (A & c & pend & HC).
+      split; [rewrite (AB c pend HC); exact A|].
+      destruct (CS c pend HC R2) as (c' & pend' & lab & HC' & _). exists c', pend'. exact HC'.
+    - intros _. split; [reflexivity|]. exists [], []. apply init_core. }
+  intros R. apply H. exact R.
+Qed.
